@@ -104,12 +104,24 @@ def _lens_cases(ctx, nl, rays_per):
                         if key != keep:
                             s_[key] = 0.0
                     hist['single_component_frames'] = hist.get('single_component_frames', 0) + 1
+        route = {1: 'handbuilt', 2: 'reuse', 3: 'roundtrip'}.get(li % 5, 'direct') if li >= len(corp) else 'direct'
+        edits = []
         try:
-            o = lensgen.build(spec)
+            o = lensgen.build_via(spec, route, rng)
+            if li >= len(corp) and li % 4 == 1:
+                # a history of public setter calls before tracing (incl. the image-space medium)
+                edits = lensgen.random_edits(o, spec, rng, kinds=['index', 'image_index', 'radius', 'thickness', 'conic'])
         except Exception as e:
             hist['build_errors'][type(e).__name__] = hist['build_errors'].get(type(e).__name__, 0) + 1
             continue
         hist['lenses'] += 1
+        hist.setdefault('routes', {})[route] = hist.setdefault('routes', {}).get(route, 0) + 1
+        hist['edited'] = hist.get('edited', 0) + int(bool(edits))
+        # the traced object must BE the prescription that was entered (vertex positions, media continuity, radii)
+        pp = lensgen.prescription_problems(spec, o, spec['wavelengths'][0][0], edits)
+        if pp:
+            hist.setdefault('prescription_violations', []).append(
+                {'spec': spec, 'route': route, 'edits': edits, 'oracle': pp, 'violates_property': True})
         for wv, _ in spec['wavelengths'][:1]:
             surfs = lensgen.model_surfaces(o, wv)
             for s in surfs:
@@ -161,6 +173,7 @@ def system_checks(ctx):
         if not good or bad:
             res['disagreements'].append({'spec': c['spec'], 'ray': c['ray'], 'model_agrees': bool(good),
                                          'oracle': bad[:4], 'violates_property': bool(bad)})
+    res['disagreements'] += hist.pop('prescription_violations', [])[:3]
     if cases:
         c = cases[0]
         res['samples'].append({'ray(Hx,Hy,Px,Py,w)': c['ray'], 'surfaces': [s['shape'][0] for s in c['surfs']],
@@ -216,7 +229,7 @@ def search(ctx, broken, disagreements):
     """Snell / on-surface / path-length oracle on the implementation, seeded sweep"""
     import oracles
     cases, hist = _lens_cases(ctx, ctx.n(60, 600), 6)
-    out = []
+    out = list(hist.get('prescription_violations', []))[:4]
     for c in cases:
         bad = oracles.check_trace(c['surfs'], c['recs'])
         if bad:
